@@ -556,6 +556,10 @@ def concrete_failure(prop, m):
     if prop in ('C07', 'C08', 'C14') and wrongly_accepted:
         # accepted => authorised / admissible (Props/C07, C08, C14) holds of the model; the implementation accepted
         return True
+    if prop == 'C04' and wrongly_accepted and any(k in op for k in ('subCancel', 'sessEnd', 'nodeStatus')):
+        # a demotion request the model refuses (not the owner, wrong state): accepted by the implementation, it demotes a
+        # record before its deadline without its owner asking (Props/C04 *_never_early lists the only causes)
+        return True
     if prop == 'C11' and wrongly_accepted and any(k in op for k in ('nodeRegister', 'nodeUpdate', 'nodeSubscribe')):
         return True
     if prop == 'C14' and m.get('kind') == 'state' and op.startswith('tx swap'):
